@@ -21,7 +21,7 @@ import (
 func init() {
 	Register("C25", &Info{
 		Run:   runC25,
-		Quick: 6000, Thor: 300000,
+		Quick: 6000, Thor: 500000,
 		Rule: "a world = one (version, cipher suite) pair negotiated by a single-suite client spec (TLS 1.3: the three suites; TLS 1.2: every documented suite (the client-only legacy ChaCha20 and EnableWeakCiphers suites have no compliant peer here, see C27); TLS 1.0/1.1: the CBC suites) against the repository or std server or (a third of the worlds) the reference server, which shapes its records in every way the RFCs allow (TLS 1.3 padding, arbitrary fragment sizes, zero-length application_data records) and under TLS 1.3 sends 2-4 NewSessionTicket messages (separately or packed into one record) and KeyUpdate messages with and without update_requested between its echo writes; then a drawn sequence of client writes (0 B .. 40 kB, record boundaries) echoed by the server and read with drawn buffer sizes (1 B .. 32 kB), by one client task or by a writer and a reader task at once under a scheduler that may switch at lock acquisitions and right after unlocks; phase 1 establishes the connection, then the scheduler arms one fault on the live connection: bit flip at a drawn offset of the next application records, truncation (clean EOF mid-record or at a record boundary), connection reset, or an on-path attacker dropping / duplicating / swapping whole records; oracle: what each side read is a prefix of what the peer wrote; without a fault it is everything; after a flip/drop/dup/swap inside the data the receiver must return an error and deliver strictly less than everything; non-trivial = >=1 application record each way (fault stratum: the fault fired before the last record); distinct = (version, suite, peer, write sizes, read sizes, fault)",
 		Assumptions: []string{"TLS 1.3 key updates are initiated by the reference server (sim/refsrv); client-initiated updates do not exist in this code base",
 			"EnableWeakCiphers is process-global: the C25 worker process enables it at start and never runs another property"},
